@@ -416,7 +416,7 @@ func (e *env) jwtBearer() {
 	x.Skew = 0 // the grant has no registered client object: the library applies no skew
 	x.Scopes = knownScopes(scopes)
 	x.JWT = e.d.Extras && e.d.TokenType == "jwt" // only a JWTProfileTokenStorage can ask for JWT access tokens
-	x.ATAud = []string{e.issuer()} // the audience of the assertion (the request of this grant)
+	x.ATAud = []string{e.issuer()}               // the audience of the assertion (the request of this grant)
 	f := url.Values{"grant_type": {gtBearer}, "assertion": {e.assertion(c.ID)}}
 	if len(scopes) > 0 {
 		f.Set("scope", strings.Join(scopes, " "))
